@@ -174,14 +174,14 @@ def build_driver():
     return rc == 0, out
 
 
-def run_driver(cases, workdir, tag="cases", sub="gen"):
+def run_driver(cases, workdir, tag="cases", sub="gen", timeout=3000):
     os.makedirs(workdir, exist_ok=True)
     cin = os.path.join(workdir, tag + ".jsonl")
     cout = os.path.join(workdir, tag + ".results.jsonl")
     with open(cin, "w") as f:
         for c in cases:
             f.write(json.dumps(c, ensure_ascii=False) + "\n")
-    rc, out = sh([DRIVER, sub, cin, cout], timeout=3000)
+    rc, out = sh([DRIVER, sub, cin, cout], timeout=timeout)
     if rc != 0:
         raise RuntimeError("driver failed: " + out[-3000:])
     res = []
